@@ -54,6 +54,23 @@ pub fn run<D: Dec>(prop: &str, rep: &mut Report) {
         rep.assumptions.push("outcome of F0 00 / F0 AA is not constrained by the statement (Up/SingleShot of that status key or an error are accepted)".into());
     }
 
+    let long_run = {
+        let (p, thorough) = (prop.to_string(), rep.thorough());
+        std::thread::spawn(move || {
+            // calls in the process per parallel run: 2^32 · wraps (Set 1 decodes about six times faster than Set 2)
+            let wraps: u64 = match (set, thorough) {
+                (1, false) => 2,
+                (1, true) => 6,
+                (_, false) => 1,
+                (_, true) => 4,
+            };
+            let mut v = vec![long_cyclic_run::<D>(p.clone(), set, 16, wraps * (1 << 28) + (1 << 16))];
+            if thorough {
+                v.push(long_cyclic_run::<D>(p, set, 1, (1 << 32) + (1 << 20)));
+            }
+            v
+        })
+    };
     let mut seen_pairs: BTreeSet<(String, u8)> = BTreeSet::new(); // (real state, byte) with non-None outcome
     let mut seen_events: BTreeSet<u16> = BTreeSet::new();
 
@@ -92,7 +109,7 @@ pub fn run<D: Dec>(prop: &str, rep: &mut Report) {
     // it is explored as a second root (its transitions must follow the reference from the empty context as well)
     let dd = guarded(D::default);
     rep.count("default_constructed_decoder_checked", 1);
-    if let Ok(dd) = dd {
+    if let (false, Ok(dd)) = (ctor_overridden(), dd) {
         let key = (format!("{:?}", dd), Ctx2::default());
         if !product.contains_key(&key) {
             rep.notes.push(format!("Default::default() gives {:?}, which differs from new(): explored as a second start state", dd));
@@ -343,6 +360,16 @@ pub fn run<D: Dec>(prop: &str, rep: &mut Report) {
         rep.count("four_byte_streams_from_fresh", n4);
     }
 
+    if let Ok(runs) = long_run.join() {
+        for (bytes, viol, note) in runs {
+            rep.evaluations += bytes;
+            rep.count("bytes_in_long_runs", bytes);
+            rep.notes.push(note);
+            for (sg, what, rp) in viol {
+                rep.violate(sg, what, rp);
+            }
+        }
+    }
     rep.distinct_nontrivial = seen_pairs.len() as u64;
     rep.rule = format!(
         "every (real decoder state, byte) transition reachable from new() compared with the reference automaton (product BFS, cap {}), \
@@ -355,6 +382,150 @@ pub fn run<D: Dec>(prop: &str, rep: &mut Report) {
     rep.set_extra("some_events", J::strs(names));
     rep.require("distinct events emitted", seen_events.len() as u64, 100);
     rep.require("history bytes", hist_events, 1000);
+}
+
+/// Long runs of well-formed typing, for whatever counts bytes / events with a 32-bit integer (in the decoder or in a
+/// static).  The period is made of sequences that each agree with the reference on a fresh decoder (prefixed keys,
+/// Pause, PrintScreen … – most positions are inside a prefix context), verified against the reference on its first
+/// pass, then repeated: every later result must equal the first pass.  `n_dec` decoders run on `n_dec` threads with
+/// `bytes_each` bytes each: quick = 16 × 2^28 (2^32 calls in the process), thorough adds one decoder with > 2^32.
+fn long_cyclic_run<D: Dec>(prop: String, set: u8, n_dec: usize, bytes_each: u64) -> (u64, Vec<(String, String, J)>, String) {
+    let r = ref_for(set);
+    let typist = Typist::new(set, &r);
+    let agrees = |seq: &[u8]| -> bool {
+        guarded(|| {
+            let mut d = D::fresh();
+            let mut ctx = Ctx2::default();
+            seq.iter().all(|b| {
+                let want = ref_step(set, &r, &mut ctx, *b);
+                want.accepts(&d.advance_state(*b))
+            }) && ctx == Ctx2::default()
+        })
+        .unwrap_or(false)
+    };
+    let mut period: Vec<u8> = Vec::new();
+    let mut seqs = special_sequences(set);
+    for (m, b) in typist.make.iter().zip(typist.brk.iter()) {
+        if m.len() > 1 {
+            let mut v = m.clone();
+            v.extend(m); // one typematic repeat
+            v.extend(b);
+            seqs.push(v);
+        }
+    }
+    // a few unprefixed keys only: they dilute the share of positions that sit inside a prefix context
+    for (i, (m, b)) in typist.make.iter().zip(typist.brk.iter()).enumerate() {
+        if m.len() == 1 && i % 16 == 0 {
+            let mut v = m.clone();
+            v.extend(b);
+            seqs.push(v);
+        }
+    }
+    let pause: Vec<u8> = if set == 2 { vec![0xE1, 0x14, 0x77, 0xE1, 0xF0, 0x14, 0xF0, 0x77] } else { vec![0xE1, 0x1D, 0x45, 0xE1, 0x9D, 0xC5] };
+    for _ in 0..12 {
+        seqs.push(pause.clone());
+    }
+    let mut left_out = 0usize;
+    for sq in seqs {
+        if agrees(&sq) {
+            period.extend(sq);
+        } else {
+            left_out += 1;
+        }
+    }
+    let in_prefix_context = {
+        let mut ctx = Ctx2::default();
+        let mut n = 0usize;
+        for b in period.iter() {
+            if ctx != Ctx2::default() {
+                n += 1;
+            }
+            let _ = ref_step(set, &r, &mut ctx, *b);
+        }
+        n
+    };
+    let period = std::sync::Arc::new(period);
+    let per = period.clone();
+    let shards = par_map(n_dec, move |_t| {
+        let r = ref_for(set);
+        let mut pos: u64 = 0;
+        let mut first_res: Vec<Res> = Vec::with_capacity(per.len());
+        let outcome = guarded(|| {
+            let mut d = D::fresh();
+            let mut ctx = Ctx2::default();
+            for b in per.iter() {
+                let want = ref_step(set, &r, &mut ctx, *b);
+                let g = d.advance_state(*b);
+                if !want.accepts(&g) {
+                    return Err(pos); // each sequence agreed on a fresh decoder, so this is history dependence
+                }
+                first_res.push(g);
+                pos += 1;
+            }
+            while pos < bytes_each {
+                for (i, b) in per.iter().enumerate() {
+                    let g = d.advance_state(*b);
+                    if g != first_res[i] {
+                        return Ok(Some((i, res_str(&g), res_str(&first_res[i]))));
+                    }
+                }
+                pos += per.len() as u64;
+            }
+            Ok(None)
+        });
+        (pos, outcome)
+    });
+    let mut total = 0u64;
+    let mut viol = Vec::new();
+    for (pos, outcome) in shards {
+        total += pos;
+        let rp = |i: Option<usize>| {
+            let mut j = J::obj().with("kind", J::s("long-run")).with("set", J::u(set as u64)).with("bytes_before", J::u(pos)).with("period_hex", J::s(hex_bytes(&period)));
+            if let Some(i) = i {
+                j = j.with("position_in_period", J::u(i as u64));
+            }
+            j
+        };
+        match outcome {
+            Ok(Ok(None)) => {}
+            Ok(Err(at)) => viol.push((
+                format!("{}|{}|long-run|first-pass|byte=0x{:02X}", prop, set_name(set), period[at as usize]),
+                format!("{} decoder: in a stream of sequences that each decode as the table says on a fresh decoder, byte #{} (… {}) does not", set_name(set), at, hex_bytes(&period[(at as usize).saturating_sub(6)..=at as usize])),
+                rp(Some(at as usize)),
+            )),
+            Ok(Ok(Some((i, got, want)))) => viol.push((
+                format!("{}|{}|long-run|byte=0x{:02X}|want={}|got={}", prop, set_name(set), period[i], want, got),
+                format!(
+                    "{} decoder, after about {} bytes of well-formed typing on this decoder ({} decoders at work in the process): byte 0x{:02X} (… {}) returned {}; the same position of the same stream returned {} on the first pass, as the table requires",
+                    set_name(set),
+                    pos,
+                    n_dec,
+                    period[i],
+                    hex_bytes(&period[i.saturating_sub(4)..=i]),
+                    got,
+                    want
+                ),
+                rp(Some(i)),
+            )),
+            Err(p) => viol.push((
+                format!("{}|{}|long-run|panic|{}", prop, set_name(set), panic_sig(&p)),
+                format!("{} decoder panicked after about {} bytes of well-formed typing on one decoder, where the table defines a result: {}", set_name(set), pos, p),
+                rp(None),
+            )),
+        }
+    }
+    viol.dedup_by(|a, b| a.0 == b.0);
+    let note = format!(
+        "{} long run: period of {} bytes ({} in a prefix context, {} sequences left out because they disagree with the reference on their own), {} decoder(s) × {} bytes, {} bytes in all",
+        set_name(set),
+        period.len(),
+        in_prefix_context,
+        left_out,
+        n_dec,
+        bytes_each,
+        total
+    );
+    (total, viol, note)
 }
 
 #[derive(Default)]
